@@ -275,7 +275,7 @@ fn execute(sc: &Scenario, out: &mut Outcome) {
         let ran = resp.header("X-Secret").is_some();
         let should = judge(&sc.pairs, r.authorization.as_deref());
         out.states.push(format!("{}|{}", r.kind, if should { "admit" } else { "refuse" }));
-        let grey = (r.kind == "other-scheme" && r.authorization.as_deref().map(|a| a.to_ascii_lowercase().starts_with(b"basic ")).unwrap_or(false));
+        let grey = r.kind == "other-scheme" && r.authorization.as_deref().map(|a| a.to_ascii_lowercase().starts_with(b"basic ")).unwrap_or(false);
         if r.kind == "padding-variant" && !should {
             out.probe("c13.padding_variant_refused");
         }
